@@ -1,6 +1,8 @@
 from dataclasses import dataclass
 from typing import List
 
+from pykdebugparser.kevent import DgbFuncQual
+
 
 @dataclass
 class VfsLookup:
@@ -13,6 +15,9 @@ class VfsLookup:
 
 
 def handle_vfs_lookup(parser, events):
+    if not events[0].func_qualifier & DgbFuncQual.DBG_FUNC_START.value:
+        # A continuation chunk of a multi-record lookup, the whole lookup is reported on its last chunk.
+        return None
     node = parser.parse_vnode(events)
     return VfsLookup(events, node.path, node.vnode_id)
 
